@@ -133,7 +133,6 @@ int main(int argc, char** argv) {
         struct sigaction sa; sa.sa_handler = on_signal; sigemptyset(&sa.sa_mask); sa.sa_flags = SA_ONSTACK | SA_NODEFER;
         sigaction(SIGALRM, &sa, 0); sigaction(SIGPROF, &sa, 0); sigaction(SIGFPE, &sa, 0); sigaction(SIGSEGV, &sa, 0); sigaction(SIGABRT, &sa, 0); sigaction(SIGBUS, &sa, 0);
     }
-    static volatile int nhang = 0;      // after 15 calls that did not return the remaining calls get 1 s of CPU each (a broken tree: keep the run short)
     std::string line;
     while (std::getline(std::cin, line)) {
         std::istringstream in(line);
@@ -148,8 +147,10 @@ int main(int argc, char** argv) {
         int sig = sigsetjmp(jb, 1);
         if (sig != 0) {
             arm(0);
-            if (sig == SIGALRM || sig == SIGPROF) { ++nhang; std::cout << "HANG" << std::endl; } else std::cout << "CRASH " << sig << std::endl;
-            continue;
+            if (sig == SIGALRM || sig == SIGPROF) std::cout << "HANG" << std::endl; else std::cout << "CRASH " << sig << std::endl;
+            // the call was abandoned by a jump out of a signal handler: locks (malloc) and library state may be left behind.
+            // Do not go on in this process: the check restarts the harness on the remaining lines.
+            std::cout.flush(); _exit(42);
         }
         bool scripted = op.size() > 2 && op[0] == 's' && op[1] == '.';
         bool inplace = op.size() > 3 && op.compare(op.size() - 3, 3, ".ip") == 0;
@@ -160,7 +161,7 @@ int main(int argc, char** argv) {
             thr = a.size() > 1 ? (unsigned long)(uint64_t)a[1] : 0;
             for (size_t i = 2; i < a.size(); ++i) SCRIPT.push_back(a[i]);
         }
-        double eff = (nhang >= 15 && budget > 1.0) ? 1.0 : budget;          // computed afresh after every sigsetjmp
+        double eff = budget;
         arm(inplace && eff > 2.0 ? 2.0 : (way != "orig" && eff > 3.0 ? 3.0 : eff));   // the grid run on copies is made of fast calls   // the unguarded in-place forms do not return: a short budget is enough
         // ------------------------------------------------------------ primality
         if (op == "isprime") o << nz(IP.isprime(a[0]));
